@@ -1382,5 +1382,286 @@ theorem prefix_util {p : Proc N} {prog : List (Instr N)} (hwf : wfProc p = true)
 
 end reach
 
+/-! ## 9. Reading `Spec.frozen` on a diagram -/
+
+section glue
+
+omit [LT N] [DecidableRel (α := N) (· < ·)] in
+/-- the first cycle in which `i` appears is `≤ t` iff `i` appears in a row `< t + 1` -/
+theorem firstCycle_le_iff (c : Ctx N) (i t : Nat) :
+    (match c.firstCycle i with | some f => decide (f ≤ t) | none => false) = true ↔
+      AppearsBefore c.units c.tbl i (t + 1) := by
+  have hG : ∀ t0 (x : Nat × UnitM N × Stall),
+      x ∈ c.units.flatMap (fun u => ((c.occ t0 u.name).filter (fun h => h.idx == i)).map (fun h => (t0, u, h.st))) →
+      x.1 = t0 ∧ ∃ u ∈ c.units, ∃ h ∈ c.occ t0 u.name, h.idx = i := by
+    intro t0 x hx
+    obtain ⟨u, hu, hx⟩ := List.mem_flatMap.1 hx
+    obtain ⟨h, hh, rfl⟩ := List.mem_map.1 hx
+    obtain ⟨hh1, hh2⟩ := List.mem_filter.1 hh
+    exact ⟨rfl, u, hu, h, hh1, by simpa using hh2⟩
+  have hfc : c.firstCycle i = ((List.range c.T).findSome? (fun t0 =>
+      (c.units.flatMap (fun u => ((c.occ t0 u.name).filter (fun h => h.idx == i)).map
+        (fun h => (t0, u, h.st)))).head?)).map (·.1) := by
+    unfold Ctx.firstCycle Ctx.positions
+    rw [List.head?_flatMap]
+  rw [hfc]
+  constructor
+  · intro h
+    cases hfs : (List.range c.T).findSome? (fun t0 =>
+        (c.units.flatMap (fun u => ((c.occ t0 u.name).filter (fun h => h.idx == i)).map
+          (fun h => (t0, u, h.st)))).head?) with
+    | none => rw [hfs] at h; simp at h
+    | some x =>
+      rw [hfs] at h
+      simp only [Option.map_some, decide_eq_true_eq] at h
+      obtain ⟨t0, ht0, hx⟩ := List.exists_of_findSome?_eq_some hfs
+      obtain ⟨e1, u, hu, y, hy, hyi⟩ := hG t0 x (List.mem_of_head? hx)
+      exact ⟨t0, by omega, List.mem_range.1 ht0, u, hu, y, hy, hyi⟩
+  · rintro ⟨t', h1, h2, u, hu, y, hy, hyi⟩
+    have hne : (c.units.flatMap (fun u => ((c.occ t' u.name).filter (fun h => h.idx == i)).map
+        (fun h => (t', u, h.st)))).head? ≠ none := by
+      intro e0
+      rw [List.head?_eq_none_iff] at e0
+      have : (t', u, y.st) ∈ c.units.flatMap (fun u => ((c.occ t' u.name).filter (fun h => h.idx == i)).map
+          (fun h => (t', u, h.st))) :=
+        List.mem_flatMap.2 ⟨u, hu, List.mem_map.2 ⟨y, List.mem_filter.2 ⟨hy, by simp [hyi]⟩, rfl⟩⟩
+      rw [e0] at this; cases this
+    cases hfs : (List.range c.T).findSome? (fun t0 =>
+        (c.units.flatMap (fun u => ((c.occ t0 u.name).filter (fun h => h.idx == i)).map
+          (fun h => (t0, u, h.st)))).head?) with
+    | none =>
+      exact absurd (List.findSome?_eq_none_iff.1 hfs t' (List.mem_range.2 h2)) hne
+    | some x =>
+      simp only [Option.map_some, decide_eq_true_eq]
+      obtain ⟨l₁, a, l₂, hsplit, hx, hpre⟩ := List.findSome?_eq_some_iff.1 hfs
+      have hxa := (hG a x (List.mem_of_head? hx)).1
+      have hmem : t' ∈ l₁ ++ a :: l₂ := by rw [← hsplit]; exact List.mem_range.2 h2
+      have hpw : (l₁ ++ a :: l₂).Pairwise (· < ·) := by rw [← hsplit]; exact List.pairwise_lt_range
+      rcases List.mem_append.1 hmem with hm | hm
+      · exact absurd (hpre t' hm) hne
+      · rcases List.mem_cons.1 hm with rfl | hm'
+        · omega
+        · have := (List.pairwise_cons.1 (List.pairwise_append.1 hpw).2.1).1 t' hm'
+          omega
+
+omit [DecidableEq N] [LT N] [DecidableRel (α := N) (· < ·)] in
+theorem filter_lt_range {E n : Nat} (h : E ≤ n) : ((List.range n).filter (fun i => decide (i < E))).length = E := by
+  induction n with
+  | zero => have : E = 0 := by omega
+            subst this; rfl
+  | succ n ih =>
+    rw [List.range_succ, List.filter_append, List.length_append]
+    by_cases hE : E ≤ n
+    · rw [ih hE]
+      have : ¬ n < E := by omega
+      simp [this]
+    · have hE' : E = n + 1 := by omega
+      subst hE'
+      have h1 : (List.range n).filter (fun i => decide (i < n + 1)) = List.range n := by
+        apply List.filter_eq_self.2
+        intro i hi
+        have := List.mem_range.1 hi
+        simp; omega
+      rw [h1]; simp
+
+omit [LT N] [DecidableRel (α := N) (· < ·)] in
+/-- `issuedBy` is the number of issued instructions, if those are the ones that have appeared -/
+theorem issuedBy_eq (c : Ctx N) (t E : Nat) (hE : E ≤ c.n)
+    (h : ∀ i, i < c.n → (AppearsBefore c.units c.tbl i (t + 1) ↔ i < E)) : issuedBy c t = E := by
+  unfold issuedBy
+  rw [← filter_lt_range hE]
+  congr 1
+  apply List.filter_congr
+  intro i hi
+  rw [Bool.eq_iff_iff]
+  exact (firstCycle_le_iff c i t).trans ((h i (List.mem_range.1 hi)).trans (by simp))
+
+omit [LT N] [DecidableRel (α := N) (· < ·)] in
+theorem FrozenRec.imp {p : Proc N} {prog : List (Instr N)} {old : Util N} {e : Nat} {dOK dOK' : UnitM N → HI → Prop}
+    (hf : FrozenRec p prog old e dOK)
+    (h : ∀ u ∈ p.allUnits, ∀ x ∈ old.get u.name, x.st = .D → dOK u x → dOK' u x) : FrozenRec p prog old e dOK' :=
+  ⟨hf.noU, hf.sBlocked, fun u hu x hx hst => h u hu x hx hst (hf.dBlocked u hu x hx hst), hf.noIssue⟩
+
+omit [LT N] [DecidableRel (α := N) (· < ·)] in
+/-- the Boolean body of `Spec.frozen` says `FrozenRec` -/
+theorem frozen_core_iff (c : Ctx N) (row : Util N) (tEnd nxt : Nat) :
+    (c.units.all (fun u => (row.get u.name).all (fun h =>
+        match h.st with
+        | .U => false
+        | .S => !isOutB c.p u.name &&
+            (succsOf c.p u.name).all (fun v => !supports c.prog h.idx v || decide (v.width ≤ (row.get v.name).length))
+        | .D => mustWait c h.idx tEnd u)) &&
+      (decide (c.n ≤ nxt) ||
+        c.p.inBoundary.all (fun u => !supports c.prog nxt u || decide (u.width ≤ (row.get u.name).length)))) = true ↔
+    FrozenRec c.p c.prog row nxt (fun u h => mustWait c h.idx tEnd u = true) := by
+  simp only [Bool.and_eq_true, List.all_eq_true, Bool.or_eq_true, decide_eq_true_eq]
+  constructor
+  · rintro ⟨h1, h2⟩
+    refine ⟨?_, ?_, ?_, ?_⟩
+    · intro u hu x hx hst
+      have := h1 u hu x hx
+      simp only [hst] at this
+      cases this
+    · intro u hu x hx hst
+      have := h1 u hu x hx
+      simp only [hst, Bool.and_eq_true, Bool.not_eq_true', isOutB, decide_eq_false_iff_not, List.all_eq_true,
+        Bool.or_eq_true, decide_eq_true_eq] at this
+      refine ⟨this.1, fun v hv hs => ?_⟩
+      rcases this.2 v hv with h | h
+      · rw [hs] at h; cases h
+      · exact h
+    · intro u hu x hx hst
+      have := h1 u hu x hx
+      simp only [hst] at this
+      exact this
+    · rcases h2 with h | h
+      · exact Or.inl h
+      · right
+        intro u hu hs
+        rcases h u hu with h' | h'
+        · rw [hs] at h'; cases h'
+        · exact h'
+  · intro hf
+    refine ⟨?_, ?_⟩
+    · intro u hu x hx
+      cases hst : x.st with
+      | U => exact absurd hst (hf.noU u hu x hx)
+      | S =>
+        have := hf.sBlocked u hu x hx hst
+        simp only [Bool.and_eq_true, Bool.not_eq_true', isOutB, decide_eq_false_iff_not, List.all_eq_true,
+          Bool.or_eq_true, decide_eq_true_eq]
+        refine ⟨this.1, fun v hv => ?_⟩
+        cases hs : supports c.prog x.idx v with
+        | true => exact Or.inr (this.2 v hv hs)
+        | false => exact Or.inl rfl
+      | D => exact hf.dBlocked u hu x hx hst
+    · rcases hf.noIssue with h | h
+      · exact Or.inl h
+      · right
+        intro u hu
+        cases hs : supports c.prog nxt u with
+        | true => exact Or.inr (h u hu hs)
+        | false => exact Or.inl rfl
+
+omit [LT N] [DecidableRel (α := N) (· < ·)] in
+theorem frozen_some (c : Ctx N) (t : Nat) :
+    frozen c (some t) =
+      (c.units.all (fun u => ((c.row t).get u.name).all (fun h =>
+        match h.st with
+        | .U => false
+        | .S => !isOutB c.p u.name &&
+            (succsOf c.p u.name).all (fun v => !supports c.prog h.idx v || decide (v.width ≤ ((c.row t).get v.name).length))
+        | .D => mustWait c h.idx (t + 1) u)) &&
+      (decide (c.n ≤ issuedBy c t) ||
+        c.p.inBoundary.all (fun u => !supports c.prog (issuedBy c t) u || decide (u.width ≤ ((c.row t).get u.name).length)))) :=
+  rfl
+
+/-- index of the row before cycle `k` -/
+def prevIdx (k : Nat) : Option Nat := if k = 0 then none else some (k - 1)
+
+/-- **Reading `Spec.frozen` through the run.** For the reachable state whose table is the first `k` rows of the
+diagram, `frozen` of the last of these rows (of the empty record if `k = 0`) says `FrozenRec` of the state's record
+and issue count, with the diagram's `mustWait … k` as the clause for `D`. -/
+theorem frozen_prefix_iff {p : Proc N} {prog : List (Instr N)} (hwf : wfProc p = true) {s : SimState N}
+    (h : Reach p prog s) {tbl : List (Util N)} (stalled : Bool) {k : Nat} (hk : k ≤ tbl.length)
+    (htab : s.table.reverse = tbl.take k) :
+    frozen (ctx p prog tbl stalled) (prevIdx k) = true ↔
+      FrozenRec p prog s.util s.entered (fun u x => mustWait (ctx p prog tbl stalled) x.idx k u = true) := by
+  have hutil := prefix_util hwf h hk htab
+  have hent := prefix_entered hwf h htab
+  by_cases h0 : k = 0
+  · subst h0
+    have e0 : s.entered = 0 := by
+      cases he : s.entered with
+      | zero => rfl
+      | succ m =>
+        obtain ⟨t', ht', _⟩ := (hent 0).1 (by omega)
+        omega
+    rw [hutil, e0]
+    exact frozen_core_iff (ctx p prog tbl stalled) ([] : List (N × List HI)) 0 0
+  · have hpi : prevIdx k = some (k - 1) := by simp [prevIdx, h0]
+    have hrow : (ctx p prog tbl stalled).row (k - 1) = s.util := by
+      rw [hutil]; simp [prevRow, h0, Ctx.row, ctx]
+    have hiss : issuedBy (ctx p prog tbl stalled) (k - 1) = s.entered := by
+      apply issuedBy_eq _ _ _ (h.termInv hwf).entered_le
+      intro i _
+      have : k - 1 + 1 = k := by omega
+      rw [this]
+      exact (hent i).symm
+    have hk1 : k - 1 + 1 = k := by omega
+    rw [hpi, frozen_some, hrow, hiss, hk1]
+    exact frozen_core_iff (ctx p prog tbl stalled) s.util k s.entered
+
+/-- exactness of data stalls (first clause of `Spec.C02`), in usable form -/
+def DExact (c : Ctx N) : Prop :=
+  ∀ i, i < c.n → ∀ t, t < c.T → ∀ u ∈ c.units, ∀ h ∈ c.occ t u.name, h.idx = i →
+    (h.st == .S || ((h.st == .D) == mustWait c i t u)) = true
+
+omit [LT N] [DecidableRel (α := N) (· < ·)] in
+theorem DExact_of_C02 (c : Ctx N) (h : (Spec.C02 c).ok = true) : DExact c := by
+  simp only [Spec.C02, Clauses.ok, List.all_cons, List.all_nil, Bool.and_true, Bool.and_eq_true] at h
+  have h1 := List.all_eq_true.1 h.1
+  intro i hi t ht u hu x hx hxi
+  have hpos : (t, u, x.st) ∈ c.positions i := by
+    unfold Ctx.positions
+    exact List.mem_flatMap.2 ⟨t, List.mem_range.2 ht, List.mem_flatMap.2 ⟨u, hu,
+      List.mem_map.2 ⟨x, List.mem_filter.2 ⟨hx, by simp [hxi]⟩, rfl⟩⟩⟩
+  exact h1 (i, t, u, x.st) (List.mem_flatMap.2 ⟨i, List.mem_range.2 hi, List.mem_map.2 ⟨_, hpos, rfl⟩⟩)
+
+/-- **The `D` clause of "stall ⇒ frozen"** — the one ingredient that belongs to property C02 (exactness of data stalls,
+for the *unrecorded* stall-detecting cycle): when the cycle run from a reachable state reproduces its record, an
+instruction labelled `D` again by the register queues must still wait according to the diagram. -/
+def FrozenDClause (p : Proc N) (prog : List (Instr N)) : Prop :=
+  ∀ s, Reach p prog s → runCycle p prog s = .ok none → ∀ u ∈ p.allUnits, ∀ x ∈ s.util.get u.name, x.st = .D →
+    labelOf prog s.queues u (s.util.get u.name) x.idx = .D →
+    mustWait (ctx p prog s.table.reverse true) x.idx s.table.length u = true
+
+/-- **clause 2 of `Spec.C08`**, given the `D` clause -/
+theorem stall_frozen {p : Proc N} {prog : List (Instr N)} (hwf : wfProc p = true) (hD : FrozenDClause p prog)
+    {tbl : List (Util N)} (hd : Diagram p prog tbl true) :
+    frozen (ctx p prog tbl true) (prevIdx tbl.length) = true := by
+  obtain ⟨s, hs, rfl, hr, _⟩ := Diagram_reach hd
+  have hr := hr rfl
+  have hlen : s.table.reverse.length = s.table.length := List.length_reverse
+  rw [frozen_prefix_iff hwf hs true (Nat.le_refl _) (List.take_length).symm]
+  refine (fixed_frozen hwf (hs.termInv hwf) hr).imp ?_
+  intro u hu x hx hst hl
+  rw [hlen]
+  exact hD s hs hr u hu x hx hst hl
+
+/-- **clause 3 of `Spec.C08`**, given exactness of data stalls on the diagram: the row before any recorded cycle
+(the empty record before the first) was not frozen -/
+theorem not_frozen_before {p : Proc N} {prog : List (Instr N)} (hwf : wfProc p = true)
+    {tbl : List (Util N)} {stalled : Bool} (hd : Diagram p prog tbl stalled)
+    (hC : DExact (ctx p prog tbl stalled)) {t : Nat} (ht : t < tbl.length) :
+    frozen (ctx p prog tbl stalled) (prevIdx t) = false := by
+  obtain ⟨s, hs, rfl, _, _⟩ := Diagram_reach hd
+  have hlen : s.table.reverse.length = s.table.length := List.length_reverse
+  obtain ⟨s0, s1, h0, hr0, e0, e1⟩ := hs.prefix t (by omega)
+  cases hfz : frozen (ctx p prog s.table.reverse stalled) (prevIdx t) with
+  | false => rfl
+  | true =>
+    exfalso
+    have hf := (frozen_prefix_iff hwf h0 stalled (by omega) e0).1 hfz
+    obtain ⟨lab, qs, hlab, _, hb, e⟩ := runCycle_eq_some hr0
+    have h1 : Reach p prog s1 := h0.step hr0
+    have hrow : s1.util = s.table.reverse.getD t ([] : List (N × List HI)) := by
+      rw [prefix_util hwf h1 (by omega) e1]; simp [prevRow]
+    have hlab1 : lab.1 = s1.util := by rw [e]
+    have hT0 := h0.termInv hwf
+    have := frozen_fixed hwf hT0 hlab (hf.imp (by
+      intro u hu x hx hst hmw l hl hU
+      subst hU
+      rw [hlab1, hrow] at hl
+      have hxn : x.idx < prog.length := Nat.lt_of_lt_of_le (hT0.row.idx_lt u.name x hx) hT0.entered_le
+      have := hC x.idx hxn t ht u hu _ hl rfl
+      simp only at this
+      rw [hmw] at this
+      simp at this))
+    rw [this] at hb
+    cases hb
+
+end glue
+
 end Term
 end ProcSim
